@@ -44,6 +44,8 @@ def build_workflow(spec: dict[str, Any], wf_id: str = "W1"):
             ctx["stageEnabled"] = s["enabled"]
         if s.get("cof"):
             ctx["continuePipelineOnFailure"] = True
+        if s.get("stop"):
+            ctx["failPipeline"] = False  # a failing task ends the stage STOPPED: its branch halts, the other branches go on
         if s.get("before") or s.get("after") or (syn and not syn.get("pre")):
             typ = "vsyn"
         elif s.get("built"):
@@ -129,6 +131,8 @@ def features(spec: dict[str, Any]) -> list[str]:
                 f.add(b)
             if b == "fail" and s.get("cof"):
                 f.add("continue-on-failure")
+            elif b == "fail" and s.get("stop"):
+                f.add("stopped-failure")
             elif b == "fail":
                 f.add("terminal-failure")
         if len(s["req"]) > 1:
@@ -269,6 +273,8 @@ def dag_spec(draw, max_stages: int = 6, allow: tuple[str, ...] = ("multi", "fail
         s = stage(ref, req, tasks)
         if any(t["b"] == "fail" for t in tasks) and "cof" in allow and draw(st.booleans()):
             s["cof"] = True
+        elif any(t["b"] == "fail" for t in tasks) and "stop" in allow and draw(st.booleans()):
+            s["stop"] = True
         if "skip" in allow and i > 0 and draw(st.integers(0, 7)) == 0:
             s["enabled"] = False
         if len(req) > 1:
